@@ -118,7 +118,9 @@ WholeUncut(T, pnt) ==
                 /\ \A g \in 1..Len(T.map) : LET L == SumLen(Src(T, T.map[g].pieces[1].src).rows) IN Abs(T.map[g].pieces[1].b - L) * T.td < T.tn
 IsNullMap(T) == WholeUncut(T, 0)
 IsPaintedNullMap(T) == WholeUncut(T, 1)
-LastContigAtLeastOneTexel(T) == \A s \in 1..Len(T.input) : LET fr == Frags(T.input[s].rows) IN fr # <<>> /\ RowLen(fr[Len(fr)]) * T.td >= T.tn
+\* (a scaffold absent from the map is re-added whole, whatever the length of its contigs: the condition concerns the scaffolds shown)
+InMap(T, s) == \E x \in AllPieces(T) : T.map[x[1]].pieces[x[2]].src = T.input[s].name
+LastContigAtLeastOneTexel(T) == \A s \in 1..Len(T.input) : LET fr == Frags(T.input[s].rows) IN fr # <<>> /\ (InMap(T, s) => RowLen(fr[Len(fr)]) * T.td >= T.tn)
 NoTerminalGapRows(T) == \A s \in 1..Len(T.input) : LET r == T.input[s].rows IN IsFrag(r[1]) /\ IsFrag(r[Len(r)])
 NullPre(T) == LastContigAtLeastOneTexel(T) /\ NoTerminalGapRows(T)
 NameRows(ss) == [q \in 1..Len(ss) |-> [name |-> ss[q].name, rows |-> ss[q].rows]]
